@@ -155,7 +155,7 @@ func (s *Super) runBatch(b batch) *Agg {
 	nonterm := 0
 	for attempt := 0; ; attempt++ {
 		out := filepath.Join(s.Dir, fmt.Sprintf("b%05d", b.idx))
-		for _, suf := range []string{".marker", ".result.json", ".hashes", ".cpulimit"} {
+		for _, suf := range []string{".marker", ".result.json", ".hashes", ".cpulimit", ".memlimit"} {
 			os.Remove(out + suf)
 		}
 		old, _ := filepath.Glob(out + ".race.*")
@@ -220,7 +220,15 @@ func (s *Super) runBatch(b batch) *Agg {
 			herrs = append(herrs, fmt.Sprintf("batch %d: worker failed before/after cases (err=%v): %s", b.idx, err, firstLines(logText, 15)))
 			break
 		}
-		if _, cerr := os.Stat(out + ".cpulimit"); cerr == nil && !timedOut {
+		if _, merr := os.Stat(out + ".memlimit"); merr == nil && !timedOut {
+			// the case made the worker's memory grow beyond anything legitimate
+			nonterm++
+			extra = append(extra, Violation{Case: culprit, Sig: "resource-exhaustion:memory-limit@" + spinningFrame(logText), Detail: fmt.Sprintf("the worker's resident memory grew beyond %d MB while the case ran and it was stopped:\n%s", DefaultMemLimitMB, firstLines(memExcerpt(logText), 60))})
+			if nonterm >= 3 {
+				herrs = append(herrs, fmt.Sprintf("batch %d: 3 cases stopped at a resource limit; the remaining cases of the batch were not run", b.idx))
+				break
+			}
+		} else if _, cerr := os.Stat(out + ".cpulimit"); cerr == nil && !timedOut {
 			// the case burnt its whole CPU allowance: it does not terminate
 			nonterm++
 			extra = append(extra, Violation{Case: culprit, Sig: "nontermination:cpu-limit@" + spinningFrame(logText), Detail: fmt.Sprintf("the case used more than %d s of CPU time (orders of magnitude above any legitimate case) and was stopped:\n%s", s.caseCPU(), firstLines(cpuExcerpt(logText), 60))})
@@ -267,8 +275,13 @@ func cpuExcerpt(log string) string {
 	if i := strings.Index(log, "CPU-LIMIT:"); i >= 0 {
 		return log[i:]
 	}
+	if i := strings.Index(log, "MEMORY-LIMIT:"); i >= 0 {
+		return log[i:]
+	}
 	return log
 }
+
+func memExcerpt(log string) string { return cpuExcerpt(log) }
 
 // spinningFrame names the innermost in-repo function of a goroutine that was
 // running or runnable when the CPU allowance ran out.
